@@ -251,6 +251,33 @@ Qed.
 Theorem trip_hash_prefix_free a b r r' : wf_trip a -> wf_trip b -> hash_trip a ++ r = hash_trip b ++ r' ->
   erase_trip a = erase_trip b /\ r = r'.
 Proof. intros Ha Hb. rewrite !hash_trip_stream, <- tr_data_eq_iff. apply (codec_prefix_free c_trip); assumption. Qed.
+Theorem vehicle_hash_prefix_free a b r r' : wf_vehicle a -> wf_vehicle b -> hash_vehicle a ++ r = hash_vehicle b ++ r' ->
+  erase_vehicle a = erase_vehicle b /\ r = r'.
+Proof. intros Ha Hb. rewrite !hash_vehicle_stream, <- ve_data_eq_iff. apply (codec_prefix_free c_vehicle); assumption. Qed.
+(* a whole feed's worth: any number of trips (vehicles) written back to back into ONE hash.Hash - the stream determines
+   every one of them, position by position *)
+Theorem trips_hash_sequence : forall xs ys r r', Forall wf_trip xs -> Forall wf_trip ys -> length xs = length ys ->
+  concat (map hash_trip xs) ++ r = concat (map hash_trip ys) ++ r' -> map erase_trip xs = map erase_trip ys /\ r = r'.
+Proof.
+  induction xs as [|x xs IH]; intros [|y ys] r r' Hx Hy Hl H; try discriminate Hl.
+  - split; [reflexivity|exact H].
+  - inversion Hx as [|? ? Hx1 Hx2]; inversion Hy as [|? ? Hy1 Hy2]; subst.
+    cbn [map concat] in H. rewrite <- !app_assoc in H.
+    destruct (trip_hash_prefix_free _ _ _ _ Hx1 Hy1 H) as [E H'].
+    destruct (IH ys r r' Hx2 Hy2 (f_equal pred Hl) H') as [E' Hr].
+    split; [cbn [map]; now rewrite E, E'|exact Hr].
+Qed.
+Theorem vehicles_hash_sequence : forall xs ys r r', Forall wf_vehicle xs -> Forall wf_vehicle ys -> length xs = length ys ->
+  concat (map hash_vehicle xs) ++ r = concat (map hash_vehicle ys) ++ r' -> map erase_vehicle xs = map erase_vehicle ys /\ r = r'.
+Proof.
+  induction xs as [|x xs IH]; intros [|y ys] r r' Hx Hy Hl H; try discriminate Hl.
+  - split; [reflexivity|exact H].
+  - inversion Hx as [|? ? Hx1 Hx2]; inversion Hy as [|? ? Hy1 Hy2]; subst.
+    cbn [map concat] in H. rewrite <- !app_assoc in H.
+    destruct (vehicle_hash_prefix_free _ _ _ _ Hx1 Hy1 H) as [E H'].
+    destruct (IH ys r r' Hx2 Hy2 (f_equal pred Hl) H') as [E' Hr].
+    split; [cbn [map]; now rewrite E, E'|exact Hr].
+Qed.
 (* what is ignored: the hash factors through the erasure *)
 Theorem trip_hash_ignores t : hash_trip (erase_trip t) = hash_trip t.
 Proof. now rewrite !hash_trip_stream, tr_data_erase. Qed.
